@@ -224,6 +224,13 @@ def optimised_custom(ctx, seed, tier, shard, nshards, n):
         ctx.end()
 
 
+def check_optimised(case, ctx):
+    """plain replay of an optimised-interpreter case: again in -O / -OO children"""
+    from vf import opt
+
+    opt.run_optimised("C13", "fault-enumeration", [case], "replay", module="vf.c13child", ctx=ctx)
+
+
 def fuzz_custom(ctx, seed, tier, shard, nshards, n):
     from vf.fuzz.harness import fuzz_clause
 
@@ -242,9 +249,9 @@ PROPERTY = Property(
     pid="C13",
     level="fault_enumeration",
     clauses=[
-        Clause(name="optimised-interpreter", kind="custom", custom=optimised_custom, check=check_c13, quick=160, thorough=1600, shards_quick=16, shards_thorough=16,
+        Clause(name="optimised-interpreter", kind="custom", custom=optimised_custom, check=check_optimised, quick=160, thorough=1600, shards_quick=16, shards_thorough=16,
                rule="the fault enumeration of clause fault-enumeration on generated valid calls, executed in child interpreters started with -O and with -OO "
-                    "(assert statements and __debug__ blocks compiled away): same oracle; a replay file is a plain case of fault-enumeration"),
+                    "(assert statements and __debug__ blocks compiled away): same oracle; a replay file is a plain case of fault-enumeration and is replayed in such children"),
         Clause(name="fault-enumeration", strategy=STRAT, check=check_c13, quick=1600, thorough=24000,
                rule="one generated valid call (2..5 teams x 1..3 players, any outcome encoding / options); ALL sites x fault kinds of the grammar enumerated on it "
                     "for rate and the three predicts (100-400 faulty calls per case); non-trivial = the case contains faults at depth >= 2 (player slot, "
